@@ -80,8 +80,13 @@ fn fresh_obs(ctx: &mut Ctx, text: &str) -> String {
     if let Some(v) = ctx.memo.get(&key) {
         return v.clone();
     }
+    if let Some(v) = crate::runner::shared_get(&key) {
+        ctx.memo.insert(key, v.clone());
+        return v;
+    }
     let calc = ctx.fresh(&Cfg::default());
     let r = format!("{:?}", obs::eval(&calc, "en", text));
+    crate::runner::shared_put(key.clone(), r.clone());
     ctx.memo.insert(key, r.clone());
     r
 }
@@ -109,6 +114,40 @@ impl Prop for C04 {
                 Some(Case::Purity(ts))
             },
         ));
+        {
+            // every ordered pair of texts of a large pool as neighbours on ONE calculator: a walk
+            // visits [a, b] for every b, for the a's of its slice
+            let mut pool: Vec<String> = PURITY_TEXTS.iter().map(|s| s.to_string()).collect();
+            for (_, ts) in crate::corpus::lines() {
+                pool.push(crate::corpus::render(&ts, &crate::lit::Conv::default_lib()));
+            }
+            for extra in ["3 m to mm", "250 mm to m", "2 inch to m", "3 m to inch", "0 kb to byte", "5 kb to byte", "12 january 2019 + 3 days", "today + 1 week", "0xFF + 1", "255 to binary", "11:30 EST to CET", "11:30 + 13 hours", "1 hour 30 minutes as minutes", "20% off 150", "$200 - 10%", "10 usd + 10 aud", "10 aud to usd", "x = 3 km\nx to m", "1/1/2020 to 3/1/2020", "1619098200 to date"] {
+                pool.push(extra.to_string());
+            }
+            pool.sort();
+            pool.dedup();
+            let slices = 32usize;
+            let np = pool.len();
+            f.push(Family::new(
+                "pair-walks",
+                Mode::Full,
+                &format!("{} walks on ONE calculator each; together they evaluate every ordered pair (a, b) of a pool of {} texts (the tagged corpus of all features, the 14 history texts, unit conversions in both directions, currency, date, time, radix, percentage lines) as neighbours [a, b] - {} pairs; every observation must equal that of the text on a calculator used once", slices, np, np * np),
+                move |ch| {
+                    let k = ch.choose(slices);
+                    let mut walk = Vec::new();
+                    for (i, a) in pool.iter().enumerate() {
+                        if i % slices != k {
+                            continue;
+                        }
+                        for b in pool.iter() {
+                            walk.push(a.clone());
+                            walk.push(b.clone());
+                        }
+                    }
+                    Some(Case::Purity(walk))
+                },
+            ));
+        }
         {
             // caches keyed by the *shape* of a computation (unit pair, currency pair, rule, zone
             // pair ...) are the realistic way to make a calculator remember: drive every shape
@@ -238,7 +277,8 @@ impl Prop for C04 {
     fn exec(&self, ctx: &mut Ctx, case: &Case) -> Verdict {
         match case {
             Case::Purity(texts) => {
-                let mut v = Verdict { input: format!("{:?}", texts), class: "history-compared", compared: true, expected: "every observation equals the same text on a calculator used once".into(), ..Default::default() };
+                let shown = if texts.len() > 8 { format!("walk of {} evaluations starting {:?} ...", texts.len(), &texts[..4]) } else { format!("{:?}", texts) };
+                let mut v = Verdict { input: shown, class: "history-compared", compared: true, expected: "every observation equals the same text on a calculator used once".into(), ..Default::default() };
                 let refs: Vec<String> = texts.iter().map(|t| fresh_obs(ctx, t)).collect();
                 let calc = ctx.fresh(&Cfg::default());
                 let mut trace = String::new();
